@@ -12,6 +12,9 @@ CHECKS = {
  "C03": ("logical work counter (cfg hook ticks), counting global allocator, nesting guard and per-run CPU clock as runtime monitors; absolute-bound oracle plus metamorphic saturation oracle over parameter magnitudes; worker-death attribution for allocation refusal / stack overflow / CPU hang",
          "Each template (complete CSI table with numeric slots, macro/sixel/font/margin families) is executed on the real engine with every slot at W*H+1, 2^16, 10^6 and 2^31-1. The monitors decide on deterministic counts (ticks, bytes requested, nesting depth), not wall-clock: ticks <= 16(n+1)WH*max(W,H), peak allocation <= 64MiB+4096n, nesting <= 32, and no growth beyond 2x between magnitudes >= 2^16. The CSI table is complete for parameter vectors of length <= 3 in quick and <= 6 in thorough.",
          "One tick per cell/pixel/glyph operation at the hook sites; loops without a tick are only seen by the 2 s CPU clock and the 60 s supervisor watchdog. Bounds are generous constants chosen by the harness; macro replay (65536 chars) and sixel (2048 px) limits of the engine are treated as fixed constants.", "DESIGN.md §4 C03"),
+ "C06": ("strict specification decoder (reference model written from x_bin.htm) applied to the bytes the real writer emits, plus three-way loader differential; exhaustive small-scope row enumeration packed 4096 rows per buffer",
+         "All rows of width 1..=7 over 3 chars x 3 attributes x 2 font pages (6.1e8 rows, thorough; widths 1..=5 in quick) and width 1..=10 over a 2x2 alphabet are saved compressed and decoded by an independent decoder that enforces run length 1..=64, no run across a row boundary, exact row width and no trailing bytes; decoded bytes must equal the source incl. the font-page bit; the engine's loader must give the same cells for compressed and uncompressed output. Random buffers up to 200x30 add long runs around the 64-cell limit.",
+         "Rows are independent in this format, which is what makes packing many rows into one buffer an exhaustive enumeration of row neighbourhoods.", "DESIGN.md §4 C06"),
  "C09": ("runtime invariant assertion after every print_char (cursor inside visible window, fixed 40x24 grid), exhaustive <=3-token sequences + seeded streams, violations shrunk by delta debugging",
          "The geometry invariant is evaluated after every character of every stream. All <=2-token sequences over a ~230-token alphabet and (thorough) all 3-token sequences over the 70-token core alphabet x 5 sizes x {fresh, scrollback} are enumerated; byte pairs for the non-CSI emulations; random streams up to 4 KiB.",
          "Streams are not checked after their first ResizeTerminal action. Streams ending in a panic are C01's matter.", "DESIGN.md §4 C09"),
@@ -21,6 +24,9 @@ CHECKS = {
  "C10": ("raw-bits runtime monitor over every stored char / String after each case (volatile u32 reads, str::from_utf8), debug-assertion UB precondition aborts observed via worker-death attribution, and the Miri interpreter on the unchecked-conversion sites (thorough)",
          "Every value of the quantifier's finite parts is executed on the real code: DECFRA fill character 0..=0x110010 (thorough: every value, quick: every 16th plus all surrogates and boundaries and 2^k+-1), all 65536 clipboard cell values, IcyDraw long-form cells with all 2048 surrogates / boundaries / random u32 in first and continuation chunks, invalid-UTF-8 titles and font names, glyph counts up to 2^17, all 256x256 hex-macro pairs. After each case every char the engine stores or returns is range-checked from its raw bits. Thorough also runs 6 Miri workloads (fill, hexmacro, clipboard, font, xbin transmute, icy) which report invalid-value construction even if the value is never read.",
          "The raw-bits monitor only sees values that are still stored after the call; transient invalid values are seen by the debug-assertion precondition checks and by Miri on the listed scenarios only.", "DESIGN.md §4 C10"),
+ "C11": ("independent SAUCE reference reader/writer (from the Revision-5 layout) against the real writer/reader, per-variant projection model of the metadata after load, and differential loading of content vs content+trailer",
+         "For each of the ten SAUCE-writing formats, documents with generated metadata of every field length, 0..=255 comments and widths up to 1000 are saved and (a) parsed by a reference reader, (b) loaded and compared with what the variant can carry; the exactness of the cut is checked by sauce_header_len == trailer length and cell equality of content vs content+trailer, including look-alike markers, empty and 127/128/129-byte contents, and foreign (reference-written, NUL-padded, EOF-less) trailers.",
+         "Ice flag and font name carried by a file are those of the document (ice mode, font 0 name).", "DESIGN.md §4 C11"),
  "C14": ("recorded event log of harness-controlled decode completions (gate hook) checked offline against a sequential model; direct assertions on decoder output; Miri data-race/UB detection with 16 scheduler seeds (thorough)",
          "Schedules: for k<=4 images in flight all k! completion orders x all 2^k poll placements x 12 geometry classes (5304 schedules) are executed with real threads held in the gate; every poll runs under a 20 s no-block limit; the log of what is on screen after each step is checked against 'fold arrivals in order over the longest finished prefix'. Payloads: seeded sixel payloads (20k quick / 2M thorough) must decode to width*height*4 bytes consistent with a declared raster.",
          "Decode durations are not enumerated (order and poll placement determine the shared state). Images are identified by colour/position/size.", "DESIGN.md §4 C14"),
